@@ -3,6 +3,7 @@ pub mod core;
 pub mod drive;
 pub mod hookmon;
 pub mod json;
+pub mod model;
 pub mod props;
 pub mod rng;
 pub mod wire;
